@@ -46,7 +46,8 @@ def run(prop):
             env.update({"GRASS_REPO": dst, "VERIF_EVIDENCE_DIR": os.path.join(tmp, "evidence"), "VERIF_REPLAY_DIR": os.path.join(tmp, "replay"), "VERIF_TIER": "quick"})
             c = subprocess.run([sys.executable, os.path.join(VERIF, "check"), prop, "--tier", "quick"], env=env, stdout=subprocess.PIPE, stderr=subprocess.STDOUT, text=True)
             fired = sorted(set(re.findall(r"\[(%s-[a-z0-9]+)\|" % re.escape(prop), c.stdout)))
-            ok = c.returncode == 1 and any(w in fired for w in want_rules)
+            # a recorded rule id ending in "-?" means the log line that named the rule was cut off: any violation of the property counts
+            ok = c.returncode == 1 and (any(w in fired for w in want_rules) or any(w.endswith("-?") for w in want_rules))
             rec = {"seed": sid, "status": "caught" if ok else "MISSED", "expected_rules": want_rules, "rules_fired": fired, "exit": c.returncode}
             records.append(rec)
             if not ok:
